@@ -35,27 +35,31 @@
     call between a `ref` and its `deref` — or a new reference held across an old call — is not
     covered by an old entry.  Read against the statement of C19 ("every temporary reference a wrapper
     method takes is released on each path"): these ARE paths on which a reference is not released.
-    Three classes, by what can raise at the site in the CURRENT sources:
-      - `userError`: reachable from the public API with a wrong argument.  `cudd_zdd._c_compose`
-        (through `ZDD.let` with a dict whose FIRST value is a `Function` and a later one is not:
-        `g = dvars[var]` with `g: Function` raises `TypeError` in the loop that fills `vector`, after
-        earlier iterations did `cuddRef(g.node)`; nothing releases `vector`).  Reported as finding.
-      - `internal`: the site is guarded by a test just before it (`var in dvars` before `dvars[var]`,
-        `var` taken from `zdd.vars` before `zdd._index_of_var[var]` / `zdd.var(var)`), or
-        the callee raises only `AssertionError`s of internal invariants (`level < 0`,
-        `u is NULL`, `level > u_level`, a `cube` that is not a cube, `index` out of range): the
-        recursive ZDD operators `_forall` / `_exist` / `_disjoin` / `_conjoin` / `_compose` hold `p`
-        (and `q`, `conj`/`disj`) across nested calls declared `except? NULL` without `try … finally`;
-        `_compose_root` drops the memo `table` with the references `_compose` parked in it.
-        Same status as `reviewedDeadAssertions`: cannot fire unless the wrapper itself is wrong.
+    Classes, by what can raise at the site in the CURRENT sources:
+      - `userError`: reachable from the public API with a wrong argument.  NONE at present.  There was
+        one, finding F21: `cudd_zdd._c_compose` (through `ZDD.let` with a dict whose FIRST value is a
+        `Function` and a later one is not: `g = dvars[var]` with `g: Function` raises `TypeError` in
+        the loop that filled `vector`, after earlier iterations did `cuddRef(g.node)`, outside the
+        `try … finally`).  Repaired in the source (every slot set to NULL, the loop inside the `try`,
+        the `finally` releases the slots that are not NULL): the function has NO entry here any more,
+        and on the source before the repair `refTraces_exceptionSafe` / `refTraces_arraysFreed` fail.
+      - `internal`: the site is guarded by a test just before it, or the callee raises only
+        `AssertionError`s of internal invariants (`level < 0`, `u is NULL`, `level > u_level`, a `cube`
+        that is not a cube, `index` out of range): the recursive ZDD operators `_forall` / `_exist` /
+        `_disjoin` / `_conjoin` / `_compose` hold `p` (and `q`, `conj`/`disj`) across nested calls
+        declared `except? NULL` without `try … finally`; `_compose_root` drops the memo `table` with the
+        references `_compose` parked in it.  Same status as `reviewedDeadAssertions`: cannot fire
+        unless the wrapper itself is wrong.
       - `memoryOnly`: the site raises `MemoryError` only (`wrap` of a node checked non-NULL two lines
         above; `table[t] = …` for a key that `t in table` already hashed).
   * `knownArrayLeaks` now also lists exits through exceptions from callees: arrays of BORROWED node
-    pointers that are not freed (memory only; no node reference involved): `BDD._multi_compose`
-    (`self._index_of_var[var]`, `g = var_sub[var]` — the latter reachable: `BDD.let` with a mixed
-    dict), `BDD._swap` / `BDD._cube_from_bdds` (`self.var(name)` raises `ValueError` for an undeclared
-    name after `PyMem_Malloc`, before the `try … finally: PyMem_Free`), `count_nodes` (a list element
-    that is not a `Function`), `_c_compose` (first iteration: array only).
+    pointers that are not freed.  MALLOC'ED MEMORY, NOT REFERENCES: no node reference is involved,
+    hence outside the text of C19 ("temporary reference"); recorded as observations.  Some are
+    reachable with a wrong argument: `BDD._multi_compose` (`g = var_sub[var]`, `BDD.let` with a dict
+    whose first value is a `Function` and a later one is not; also `self._index_of_var[var]`),
+    `BDD._swap` / `BDD._cube_from_bdds` (`self.var(name)` raises `ValueError` for an undeclared name
+    after `PyMem_Malloc`, before the `try … finally: PyMem_Free`), `count_nodes` (a list element that
+    is not a `Function`).
 -/
 import DD.CTableTypes
 namespace DD
